@@ -232,7 +232,8 @@ def error_schedules(rng, base, L, tier, is_read):
     ks = range(0, m + (1 if is_read else 0))          # a read also fails after the data, before end of file is seen
     if len(ks) > (12 if tier == "quick" else 80):
         ks = sorted(set(rng.sample(list(ks), 10 if tier == "quick" else 60)) | {0, 1, m - 1})
-    return [full[:k] + ["E"] for k in ks if k >= 0]
+    # the failing call reports EIO, EINTR or EAGAIN: none of them is an end of file, each is reported as a failure
+    return [full[:k] + [rng.choice(["E", "E", "I", "A"])] for k in ks if k >= 0]
 
 
 def eof_schedules(rng, L, tier):
